@@ -152,6 +152,12 @@ Op == /\ Ev("Op") /\ phase = "run" /\ cur # 0 /\ E.fib = cur
                     [] OTHER -> [fr |-> base, hs |-> hs, ret |-> Me.ret]
             IN /\ d.ok
                /\ sl - E.sb >= Needs(n, d.a, d.b)                     \* the operands the instruction pops / peeks exist in its own frame
+               \* ... and what its operand names exists: a local slot of this frame, a captured variable of this function, a constant
+               /\ (n \in {"GetLocal", "SetLocal"} => d.a < sl - E.sb)
+               /\ (n \in {"GetUpvalue", "SetUpvalue"} => d.a < fn.upv)
+               /\ (n = "Constant" => d.a < Len(fn.ckind))
+               /\ (n \in NameOps => d.a < Len(fn.ckind) /\ fn.ckind[d.a + 1] = "str")
+               /\ (n = "Closure" => d.a < Len(fn.ckind) /\ fn.ckind[d.a + 1] = "fn")
                /\ (n = "JumpFinally" => hs # <<>> /\ Top(hs).fc = E.nf)
                /\ fibs' = With(cur, [frames |-> SetTop(Me.frames, step.fr), hs |-> step.hs, ret |-> step.ret])
       /\ l' = l + 1 /\ UNCHANGED <<cur, phase>>
